@@ -268,13 +268,16 @@ class XsdWildcard(XsdComponent):
 
     def union(self, other: Union['XsdAnyElement', 'XsdAnyAttribute']) -> None:
         """Update an XSD wildcard with the union of itself and another XSD wildcard."""
-        if not self.not_qname:
-            self.not_qname = copy(other.not_qname)
-        else:
-            self.not_qname = {
-                x for x in self.not_qname
-                if x in other.not_qname or not other.is_namespace_allowed(get_namespace(x))
-            }
+        not_qname = {
+            x for x in self.not_qname
+            if x in other.not_qname or
+            not x.startswith('##') and not other.is_namespace_allowed(get_namespace(x))
+        }
+        not_qname.update(
+            x for x in other.not_qname
+            if not x.startswith('##') and not self.is_namespace_allowed(get_namespace(x))
+        )
+        self.not_qname = not_qname
 
         if self.not_namespace:
             if other.not_namespace:
